@@ -74,6 +74,30 @@ def main():
                 print(results[-1], flush=True)
                 if status in ("MISSED", "FALSE-ALARM", "DOES-NOT-COMPILE"):
                     print(out[-1500:])
+    # seeded changes from independent sub-agents: /verif/seeded/<id>/patch.diff
+    sd = os.path.join(VERIF, "seeded")
+    for f in sorted(os.listdir(sd)) if os.path.isdir(sd) else []:
+        path = os.path.join(sd, f, "patch.diff")
+        if not os.path.exists(path) or (only and only not in f and only != "seeded"):
+            continue
+        meta = json.load(open(os.path.join(sd, f, "meta.json")))
+        pids = meta.get("check_with", [meta["property"]])
+        sh(f"git -C {SCRATCH} checkout -q -- . && git -C {SCRATCH} clean -fdq")
+        r = sh(f"git -C {SCRATCH} apply --whitespace=nowarn {path}")
+        if r.returncode:
+            results.append(("seeded", f, "PATCH-FAILED", r.stdout.strip()[:200]))
+            continue
+        for pid in pids:
+            if not os.path.exists(os.path.join(VERIF, "fvlib", "rules", pid.lower() + ".py")):
+                results.append(("seeded", f, pid, "NO-CHECK", [], 0)); print(results[-1], flush=True); continue
+            t0 = time.time()
+            env = dict(os.environ, FV_REPO=SCRATCH, FV_EVIDENCE_DIR=evd)
+            r = subprocess.run([os.path.join(VERIF, "fv"), "check", pid], env=env, text=True,
+                               stdout=subprocess.PIPE, stderr=subprocess.STDOUT)
+            rules = re.findall(r"^\s+rule=(\S+)", r.stdout, re.M)
+            status = "caught" if r.returncode == 1 and "VIOLATION" in r.stdout else ("seed-missed" if r.returncode == 0 else "ERROR")
+            results.append(("seeded", f, pid, status, sorted(set(rules)), round(time.time() - t0, 1)))
+            print(results[-1], flush=True)
     sh(f"git -C {SCRATCH} checkout -q -- . && git -C {SCRATCH} clean -fdq")
     shutil.rmtree(evd, ignore_errors=True)
     bad = [r for r in results if r[3] in ("MISSED", "FALSE-ALARM", "DOES-NOT-COMPILE") or r[2] == "PATCH-FAILED"]
